@@ -31,13 +31,13 @@ func init() {
 
 // memoSite is one call that caches the result of a closure under a string key.
 type memoSite struct {
-	fn      *ssa.Function
-	call    *ssa.Call
-	key     ssa.Value
-	closure *ssa.Function
-	binds   []ssa.Value // values bound to the closure's free variables
-	prefix  string
-	hasPfx  bool
+	fn       *ssa.Function
+	call     *ssa.Call
+	key      ssa.Value
+	closure  *ssa.Function
+	binds    []ssa.Value // values bound to the closure's free variables
+	prefix   string
+	hasPfx   bool
 	dyn      []string
 	ctor     string
 	relation string
